@@ -822,6 +822,20 @@ def spine_family(L):
                     bounds.append(p)
                 fam.append(dict(name="depth%d %s [%s]" % (depth, inner_name, seq_name(s)), bytes=bs, toks=s, outcome=o, truncs=sorted(set(bounds)), in_S=False,
                                 nheads=len(s), status="complete" if o.ok else "error", k=0, depth=depth))
+    # siblings: several containers opened and closed one after another at the deepest allowed level (the frame count must go down again)
+    if L >= 2:
+        for start in range(3):
+            kinds = [SPINE_KINDS[(start + jj) % len(SPINE_KINDS)] for jj in range(L - 2)]
+            sib = [tok("arr", n=4), tok("map", n=1), tok("leaf", leaf="uint8"), tok("leaf", leaf="true"), tok("tag", form=0, imm=5), tok("leaf", leaf="null"),
+                   tok("iarr"), tok("leaf", leaf="negint8"), tok("break"), tok("ibstr"), tok("bstr", len=1), tok("break")]
+            s_ = spine(kinds, sib)
+            bs = seq_bytes(s_)
+            if tuple(bs) in seen:
+                continue
+            seen.add(tuple(bs))
+            o = ref_load(bs, L)
+            fam.append(dict(name="siblings_at_depth%d [%s]" % (L, seq_name(s_)), bytes=bs, toks=s_, outcome=o, truncs=[len(bs)], in_S=False, nheads=len(s_),
+                            status="complete" if o.ok else "error", k=0, depth=L))
     return fam
 
 
@@ -875,7 +889,9 @@ def enum_large():
         ("arr_24_count_in_1byte_form", [T("arr", n=24, form=1)] + [I(k) for k in range(24)]),
         ("arr_25", [T("arr", n=25, form=1)] + [I(k) for k in range(24)] + [U8]),
         ("map_24_pairs", [T("map", n=24, form=1)] + [x for k in range(24) for x in (I(k), I(23 - k))]),
-        ("bstr_16_symbolic", [T("bstr", len=16)]), ("bstr_23_symbolic", [T("bstr", len=23)]), ("tstr_16_ascii", [asc(16)]), ("tstr_23_ascii", [asc(23)]),
+        ("bstr_16_symbolic", [T("bstr", len=16)]), ("bstr_23_symbolic", [T("bstr", len=23)]), ("tstr_16_ascii", [asc(16)]), ("tstr_23_ascii", [asc(23)]), ("tstr_32_ascii", [asc(32)]), ("tstr_64_ascii", [asc(64)]),
+        ("tstr_33_multibyte_tail", [T("raw", bytes=head(3, 33, 1) + [0x61 + (i % 26) for i in range(29)] + [0xF4, 0x8F, 0xBF, 0xBF])]),
+        ("tstr_9_3byte_tail", [T("raw", bytes=head(3, 9, 0) + [0x61] * 6 + [0xEF, 0xBF, 0xBF])]),
         ("arr_16_immediates", [T("arr", n=16)] + [I(k) for k in range(16)]), ("map_16_pairs_in_tag", [T("tag", form=2), T("map", n=16)] + [x for k in range(16) for x in (I(k), I(k))]),
         ("bstr_24_symbolic", [T("bstr", len=24, form=1)]),
         ("bstr_256_symbolic", [T("bstr", len=256, form=2)]),
